@@ -2,6 +2,7 @@
 Claimed at the level of R1-R2 only; conjugation symmetry, 1/z tail, negativity and boundary values are value-level
 consequences of C01 + C09 and are not decided."""
 from pv.check import run_check
+from pv.loops import no_early_exit
 from pv.expr import Ctx, guard_facts
 from pv.facts import AnalysisBroken
 from pv.formula import Formula
@@ -40,7 +41,7 @@ def body(chk, db, cfgname):
         for j, n in f.walk(f.body):
             if n["k"] == "for":
                 shp = loop_shape(f, ctx, j)
-                if shp["kind"] == "iter" and shp["bound"] == fld("Pomerol::TermList::data") and not shp["exits"]:
+                if shp["kind"] == "iter" and shp["bound"] == fld("Pomerol::TermList::data") and no_early_exit(shp):
                     for jj, nn in f.walk(shp["body"]):
                         if nn["k"] == "call" and nn["ck"] == "op" and nn.get("op") == "+=":
                             rk = ctx.key(nn["args"][1], inline=False)
